@@ -413,6 +413,26 @@ def replay_known(pid, k):
 
 
 def replay(pid, path):
+    global ORC
     d = json.load(open(path))
-    print('replay: re-run the check; recorded witness:', json.dumps(d.get('witness'), default=str)[:800])
-    return 1
+    w = d.get('witness') or {}
+    case = w.get('case') or {}
+    if 'elem' not in case:
+        print('replay: re-run the check; recorded witness:', json.dumps(w, default=str)[:800])
+        return 1
+    # the declaration history when the witness has one (a gear mated again after a first evaluation), otherwise the pair alone
+    sc = case.get('history')
+    if sc is None:
+        a, b = (case['elem'], case['mate']) if case.get('role') != 'RSlave' else (case['mate'], case['elem'])
+        if b is None:
+            b = case['elem']
+        tqs = [[case['ltq'], case['dtq']], [case['ltq'], case['dtq']]]
+        kind = {('spur', 'spur'): 'spur', ('helical', 'helical'): 'helical', ('worm', 'wheel'): 'wormwheel', ('wheel', 'worm'): 'wheelworm'}[(a['kind'], b['kind'])]
+        sc = dict(pair=kind, a=a, b=b, torques=tqs, mated=case.get('mate') is not None, f=0.1)
+    ORC = []
+    ws = [x for _, r in run_pair(sc) for x in doc_check(r)]
+    if ws:
+        print('still fails:', ws[0]['what'])
+        return 1
+    print('no longer fails on this history')
+    return 0
